@@ -489,6 +489,22 @@ class EphemeralHiddenService:
             raise RuntimeError('Failed to remove hidden service: "%s".' % r)
 
 
+def _socksport_address(socks_config):
+    """
+    Internal helper.
+
+    Returns the address part (the first word) of a SOCKSPort line. A
+    unix-socket path that contains spaces is written ``unix:"..."``.
+    """
+    socks_config = socks_config.strip()
+    if socks_config.startswith('unix:"'):
+        end = socks_config.find('"', len('unix:"'))
+        if end != -1:
+            return socks_config[:end + 1]
+    words = socks_config.split()
+    return words[0] if words else socks_config
+
+
 def _endpoint_from_socksport_line(reactor, socks_config):
     """
     Internal helper.
@@ -498,10 +514,12 @@ def _endpoint_from_socksport_line(reactor, socks_config):
     """
     # options like KeepAliveIsolateSOCKSAuth can be appended
     # to a SocksPort line (unix: ones too, e.g. WorldWritable)
-    if ' ' in socks_config:
-        socks_config = socks_config.split()[0]
+    socks_config = _socksport_address(socks_config)
     if socks_config.startswith('unix:'):
-        return UNIXClientEndpoint(reactor, socks_config[5:])
+        path = socks_config[5:]
+        if len(path) >= 2 and path.startswith('"') and path.endswith('"'):
+            path = path[1:-1]
+        return UNIXClientEndpoint(reactor, path)
 
     if ':' in socks_config:
         host, port = socks_config.split(':', 1)
@@ -650,7 +668,7 @@ class TorConfig:
                 # of options appended, so we have to split off the
                 # first thing which *should* be the port (or can be a
                 # string like 'unix:')
-                if port_config.split()[0] == port:
+                if _socksport_address(port_config) == port:
                     socks_config = port_config
                     break
         if socks_config is None:
@@ -693,7 +711,7 @@ class TorConfig:
                 )
             socks_config = self.SocksPort[0]
         else:
-            if not any([socks_config in (port, port.split()[0]) for port in self.SocksPort]):
+            if not any([socks_config in (port, _socksport_address(port)) for port in self.SocksPort]):
                 # need to configure Tor
                 self.SocksPort.append(socks_config)
                 try:
